@@ -180,7 +180,46 @@ PROPS["C10"] = dict(
          "histories of SetPadding / SetPaddingStyle switches checking width and frame paths; non-trivial = any distinct op",
 )
 
-KNOWN_CLASSES = {}
+def classify_c12(op, impl, model_line):
+    f = op.split(" ")
+    ops = "".join(sorted(set(t.split(":")[0] for t in f[3:])))
+    if len(f) < 5:
+        return None
+    return "hist:" + ("copy/split" if ("C" in ops or "S" in ops) else "setters") + f":len{min(len(f) - 3, 6)}"
+
+
+PROPS["C04"] = dict(
+    n_quick=8000, n_thorough=60000, classify=classify_seq,
+    rule="op seq as for C03, here with the frame-path side: Frame(f) for 9 frame numbers (0, +-1, wider than the pad, negative, "
+         "random), Index(i) for i in {-1, 0, len-1, len} and interior indices, distinctness of all len paths (len <= 300), "
+         "string-typed frames; concrete single-file paths base+digits+ext with every zero padding, sign and extension shape "
+         "(tagged 'single': index 0 must give the path back); non-trivial = any distinct op, class = domain",
+    assumptions=["frame numbers fit an int"],
+)
+PROPS["C12"] = dict(
+    n_quick=6000, n_thorough=80000, classify=classify_c12,
+    rule="op seq.ops: a random history (1-8 calls) of SetDirname/SetBasename/SetExt/SetPadding/SetPaddingStyle/"
+         "SetFrameRange(valid|invalid)/SetFrameSet/Normalize/Copy/Split on a parsed sequence of either pad style, with a snapshot "
+         "(String, five components, width, style, len, first and last path) and a self-consistency verdict after every call "
+         "(string invariant, what the call must and must not change, Copy equality and independence, Split parts and "
+         "concatenation); non-trivial = history of >= 2 calls",
+)
+
+
+def _negzero_single(op, impl, model_line):
+    if not op.endswith(" single"):
+        return False
+    rng = _m(model_line).get("rng", "-")
+    if rng == "-":
+        return False
+    try:
+        t = bytes.fromhex(rng).decode("latin-1")
+    except ValueError:
+        return False
+    return len(t) >= 2 and t[0] == "-" and set(t[1:]) == {"0"}
+
+
+KNOWN_CLASSES = {"negzero-single-file": _negzero_single}
 
 NOT_YET = {}
 
@@ -212,6 +251,20 @@ MANIFEST_TEXT = {
         text="Theorems: padSize (padChars n) = n for all n >= 1 in both styles; width of every {#,@} string; every documented "
              "token has its documented width; style switch keeps width and every frame path.",
         note="Trusted: Lean kernel; model of pad.go tied by correspondence (pad tables observed through every {#,@} string)."),
+    "C04": dict(
+        text="Theorems: Frame(f) = dir+base+printf-%0Nd(f)+ext for every sequence with a frame set and every integer; Index(i) is "
+             "the path of the i-th frame, \"\" outside [0,len); the len paths are pairwise distinct (zero filling injective); "
+             "a concrete single-file path gives itself back at index 0, proved for all paths except the recorded finding "
+             "(negative-zero frame token), for which the negation is proved at the witness.",
+        note="Trusted: Lean kernel; regex recogniser for singleFramePattern as model of Go regexp, tied by correspondence; "
+             "known finding C04/neg-zero is listed in known_findings.json and suppressed only for that class."),
+    "C12": dict(
+        text="Theorems: String() is the concatenation of the current components after any history; each setter changes only its "
+             "component (missing '/' and '.' added); a failed SetFrameRange is a no-op; along every history of setters/Copy/Split "
+             "from a parsed sequence the frame set re-creates itself, so Copy is the identical value and Split yields one part per "
+             "comma component with equal dir/base/pad/width/style/ext whose frames concatenate (first occurrences) to the original's.",
+        note="Trusted: Lean kernel; model of sequence.go setters/Copy/Split tied by correspondence incl. an aliasing test of Copy; "
+             "histories containing SetFrameSet(Normalize()) are covered by correspondence only."),
     "C08": dict(
         text="Theorems: for every accepted range text with >= 1 frame the model's Normalize yields sortedSet of the frames and "
              "Invert the complement within [min,max], both well-formed; their printed strings re-parse to those lists; "
